@@ -296,6 +296,81 @@ def expand_aliases(fn: FuncInfo, e: ast.AST, depth: int = 3) -> ast.AST:
     return cur
 
 
+def eval_sequence(fn: FuncInfo, e: ast.AST, depth: int = 0) -> Optional[list[ast.AST]]:
+    """The elements, in order, of a tuple / list valued expression built from literals inside `fn`: displays with starred parts, names bound
+    once (also by a starred unpacking `*a, b = T` / `a, *b = T`), `+`, `reversed(..)`, `sorted`-free slices with constant bounds,
+    `tuple(..)` / `list(..)`.  None when the fragment does not cover it."""
+    if depth > 6:
+        return None
+    if isinstance(e, (ast.Tuple, ast.List)):
+        out: list[ast.AST] = []
+        for x in e.elts:
+            if isinstance(x, ast.Starred):
+                sub = eval_sequence(fn, x.value, depth + 1)
+                if sub is None:
+                    return None
+                out += sub
+            elif isinstance(x, ast.Name):
+                # an element given by name: the one element a (starred) unpacking bound it to, when there is such a binding
+                one = eval_sequence(fn, x, depth + 1)
+                single = [n for n in walk_local(fn.node) if isinstance(n, ast.Assign) and len(n.targets) == 1 and isinstance(n.targets[0], (ast.Tuple, ast.List))
+                          and any(isinstance(t_, ast.Name) and t_.id == x.id for t_ in n.targets[0].elts)]
+                out.append(one[0] if one is not None and len(one) == 1 and single else x)
+            else:
+                out.append(x)
+        return out
+    if isinstance(e, ast.BinOp) and isinstance(e.op, ast.Add):
+        l, r = eval_sequence(fn, e.left, depth + 1), eval_sequence(fn, e.right, depth + 1)
+        return None if l is None or r is None else l + r
+    if isinstance(e, ast.Call) and isinstance(e.func, ast.Name) and e.func.id in ('tuple', 'list', 'reversed') and len(e.args) == 1 and not e.keywords:
+        sub = eval_sequence(fn, e.args[0], depth + 1)
+        return None if sub is None else (list(reversed(sub)) if e.func.id == 'reversed' else sub)
+    if isinstance(e, ast.Subscript) and isinstance(e.slice, ast.Slice) and e.slice.step is None:
+        sub = eval_sequence(fn, e.value, depth + 1)
+        lo = None if e.slice.lower is None else const(e.slice.lower) if not isinstance(e.slice.lower, ast.UnaryOp) else -const(e.slice.lower.operand)
+        hi = None if e.slice.upper is None else const(e.slice.upper) if not isinstance(e.slice.upper, ast.UnaryOp) else -const(e.slice.upper.operand)
+        if sub is None or (e.slice.lower is not None and not isinstance(lo, int)) or (e.slice.upper is not None and not isinstance(hi, int)):
+            return None
+        return sub[lo:hi]
+    if isinstance(e, ast.Name):
+        binds = []
+        for n in walk_local(fn.node):
+            if isinstance(n, ast.Assign) and len(n.targets) == 1:
+                t = n.targets[0]
+                if isinstance(t, ast.Name) and t.id == e.id:
+                    binds.append(('whole', n.value, None))
+                elif isinstance(t, (ast.Tuple, ast.List)) and any(isinstance(x, ast.Name) and x.id == e.id or
+                                                                   (isinstance(x, ast.Starred) and isinstance(x.value, ast.Name) and x.value.id == e.id) for x in t.elts):
+                    binds.append(('unpack', n.value, t))
+            elif isinstance(n, (ast.For, ast.AugAssign, ast.NamedExpr)) and any(isinstance(x, ast.Name) and x.id == e.id and isinstance(x.ctx, ast.Store)
+                                                                                  for x in ast.walk(n.target)):
+                return None
+        if len(binds) != 1:
+            return None
+        kind, v, t = binds[0]
+        if kind == 'whole':
+            return eval_sequence(fn, v, depth + 1)
+        src = eval_sequence(fn, v, depth + 1)
+        if src is None:
+            return None
+        star = [i for i, x in enumerate(t.elts) if isinstance(x, ast.Starred)]
+        if len(star) > 1:
+            return None
+        n_after = len(t.elts) - star[0] - 1 if star else 0
+        for i, x in enumerate(t.elts):
+            nm = x.value.id if isinstance(x, ast.Starred) and isinstance(x.value, ast.Name) else x.id if isinstance(x, ast.Name) else None
+            if nm != e.id:
+                continue
+            if isinstance(x, ast.Starred):
+                return src[i:len(src) - n_after]
+            # a plain name bound to ONE element: that element must itself be a sequence for the caller; hand it back as a one-element list marker
+            idx = i if not star or i < star[0] else len(src) - (len(t.elts) - i)
+            if 0 <= idx < len(src):
+                return [src[idx]] if not isinstance(src[idx], (ast.Tuple, ast.List)) else [src[idx]]
+        return None
+    return None
+
+
 def string_parts(e: ast.AST) -> list[str]:
     """The pieces a string-building expression concatenates, in order, each as source text: `a + B + c`, `f"{a}{B}{c}"`, `''.join([a, B, c])`
     all give [a, B, c]; literal pieces are given as their repr.  A formatted value with a conversion or format spec is kept whole."""
